@@ -7,6 +7,7 @@ import (
 	"fmt"
 	"io"
 	"log/slog"
+	"os"
 	"runtime"
 	"strings"
 	"sync"
@@ -169,6 +170,8 @@ func check(c Case, o *stats.Obs) error {
 					runtime.Gosched()
 				} else if cs.Mode == 2 && cs.K > 0 && n%cs.K == 0 && n/cs.K < 6 {
 					time.Sleep(time.Duration(50+n%4*50) * time.Microsecond)
+				} else if cs.Mode == 3 && n == cs.K { // one long stall, seconds long
+					time.Sleep(time.Duration(longStallMs()) * time.Millisecond)
 				}
 				select {
 				case m := <-chans[i]:
@@ -214,7 +217,7 @@ func check(c Case, o *stats.Obs) error {
 	var rc int
 	select {
 	case rc = <-ret:
-	case <-time.After(30 * time.Second):
+	case <-time.After(90 * time.Second):
 		close(stop)
 		o.Key = "no-return"
 		return fmt.Errorf("HandleMessagesUntilEOF did not return within 30 s for a %d-byte stream (%d expected messages); goroutines:\n%s", len(input), len(ref.Msgs), leaked())
@@ -342,5 +345,28 @@ func gen1(t *rapid.T) Case {
 var prop = stats.Prop(R, "pipeline", gen1, check)
 
 func TestPipeline(t *testing.T) { rapid.Check(t, prop) }
+
+func longStallMs() int {
+	if os.Getenv("VERIF_TIER") == "thorough" {
+		return 12000
+	}
+	return 5500
+}
+
+// Long stall: one consumer stops taking messages for several seconds; every consumer must still get
+// every message, in order.
+func genStall(t *rapid.T) Case {
+	c := Case{BufSize: 4096}
+	n := rapid.IntRange(3, 6).Draw(t, "nFrames")
+	for i := 0; i < n; i++ {
+		c.Stream.Segs = append(c.Stream.Segs, gen.Segment{Kind: "valid", Data: gen.ValidFrame(t, 40)})
+	}
+	c.Consumers = []Consumer{{Cap: rapid.SampledFrom([]int{0, 1}).Draw(t, "cap"), Mode: 3, K: rapid.IntRange(0, 1).Draw(t, "stallAt")}, {Cap: 1}}
+	return c
+}
+
+var propStall = stats.Prop(R, "long-stall", genStall, check)
+
+func TestLongStall(t *testing.T) { rapid.Check(t, propStall) }
 
 func TestReplay(t *testing.T) { R.Replay(t) }
